@@ -1,6 +1,7 @@
 package main
 
 import (
+	"strings"
 	"bytes"
 	"context"
 	"encoding/hex"
@@ -123,7 +124,7 @@ func runEntry(ep string, ro readOpts, in []byte, seq int) string {
 		os.WriteFile(p, in, 0o644)
 		defer os.Remove(p)
 		err := carv2.ReplaceRootsInFile(p, nil, opts...)
-		return "_r=" + okOrErr(err)
+		return "_r=" + classifyIdx(err)
 	case "extract":
 		p := tmpPath(fmt.Sprintf("c09-ex-%d.car", seq))
 		d := tmpPath(fmt.Sprintf("c09-ex-%d.out", seq))
@@ -131,7 +132,7 @@ func runEntry(ep string, ro readOpts, in []byte, seq int) string {
 		defer os.Remove(p)
 		defer os.Remove(d)
 		err := carv2.ExtractV1File(p, d, opts...)
-		return "_r=" + okOrErr(err)
+		return "_r=" + classifyIdx(err)
 	case "root":
 		cr, err := car.NewCarReader(bytes.NewReader(in))
 		if err != nil {
@@ -235,29 +236,50 @@ func famC09(g *Gen, o *Out, n int, thorough bool) {
 				o.Count(ep)
 			}
 		}
-		// limits are exact: a header / section of exactly the limit is accepted, one byte more is rejected
+		// limits are exact, at every entry point and for both container versions: a header / section of
+		// exactly the limit is accepted, one byte more is rejected; the two limits are set apart so
+		// that using the wrong one shows
 		for _, which := range []string{"header", "section"} {
-			hdrLen := int(arch[0])
-			if ver != 1 || arch[0] >= 0x80 || len(bs) == 0 {
+			hp := 0
+			if ver == 2 {
+				hp = int(leU64(arch[27:35]))
+			}
+			if len(bs) == 0 || arch[hp] >= 0x80 || sectionOf(bs[0])[0] >= 0x80 {
 				break
 			}
-			ro := defaultReadOpts()
+			hdrLen := int(arch[hp])
 			secLen := len(sectionOf(bs[0])) - 1 // one-byte varint for these sizes
-			if sectionOf(bs[0])[0] >= 0x80 {
-				break
-			}
 			for _, d := range []int{-1, 0, 1} {
-				r2 := ro
+				r2 := defaultReadOpts()
 				if which == "header" {
 					r2.mh = uint64(hdrLen + d)
+					if g.pick(2) == 0 {
+						r2.ms = uint64(hdrLen + d - 2 + 4*g.pick(2))
+					}
 				} else {
 					r2.ms = uint64(secLen + d)
+					if g.pick(2) == 0 {
+						r2.mh = uint64(hdrLen + 300)
+					}
 				}
-				seq++
-				res, panicked, alloc, _ := guarded(func() string { return runReader("br-seek", r2, arch) })
-				o.Line(fmt.Sprintf("parse ep=next-seek %s in=%s", r2, hexOr(arch)),
-					fmt.Sprintf("%s panic=%d allocok=%d slow=0 _alloc=%d", res, b2i(panicked), b2i(alloc < 1<<22), alloc))
-				o.Count("limit/" + which)
+				for _, ep := range c09Entries {
+					if ep == "indexread" || (!thorough && g.pick(3) != 0) {
+						continue
+					}
+					seq++
+					os.WriteFile(lastCase, []byte(fmt.Sprintf("ep=%s %s in=%s\n", ep, r2, hex.EncodeToString(arch))), 0o644)
+					res, panicked, alloc, _ := guarded(func() string { return runEntry(ep, r2, arch, seq) })
+					bound := r2.mh + r2.ms + 4096*uint64(len(arch)) + (4 << 20)
+					lim := "none"
+					if strings.Contains(res, "hdrtoolarge") {
+						lim = "hdr"
+					} else if strings.Contains(res, "toolarge") {
+						lim = "sec"
+					}
+					o.Line(fmt.Sprintf("parse ep=%s %s lim=1 in=%s", ep, r2, hexOr(arch)),
+						fmt.Sprintf("%s panic=%d allocok=%d slow=0 _alloc=%d _lim=%s", res, b2i(panicked), b2i(alloc <= bound), alloc, lim))
+					o.Count("limit/" + which + "/" + ep)
+				}
 			}
 		}
 	}
